@@ -123,6 +123,31 @@ def more_generated(rng) -> list[tuple[Any, str]]:
         add(f"dense 2d({t})", lambda t=t, vals=vals: b.DenseIntOrFPElementsAttr.from_list(b.TensorType(t, [2, 1]), [vals[0], vals[-1]]))
         if not isinstance(t, b.IndexType):
             add(f"array({t}, {vals})", lambda t=t, vals=vals: b.DenseArrayBase.from_list(t, vals))
+    # long lists are printed as a hexadecimal blob
+    for t, gen in ((b.i8, lambda k: (k * 37) % 256 - 128), (b.i1, lambda k: k % 3 == 0), (b.i32, lambda k: k * 1000003 - 7), (b.i64, lambda k: -(k ** 5)),
+                   (b.f32, lambda k: k / 7), (b.f64, lambda k: (-1) ** k * k / 3), (b.f16, lambda k: float(k)), (b.IndexType(), lambda k: k)):
+        for n in (100, 101, 128, 257):
+            add(f"dense long({t}, {n})", lambda t=t, gen=gen, n=n: b.DenseIntOrFPElementsAttr.from_list(b.TensorType(t, [n]), [gen(k) for k in range(n)]))
+        add(f"dense long 2d({t})", lambda t=t, gen=gen: b.DenseIntOrFPElementsAttr.from_list(b.TensorType(t, [3, 40]), [gen(k) for k in range(120)]))
+        if not isinstance(t, b.IndexType):
+            add(f"array long({t})", lambda t=t, gen=gen: b.DenseArrayBase.from_list(t, [gen(k) for k in range(130)] if t != b.f16 else [1.0] * 5))
+    # affine maps and sets
+    from xdsl.ir.affine import AffineBinaryOpExpr, AffineBinaryOpKind, AffineConstantExpr, AffineDimExpr, AffineExpr, AffineMap, AffineSymExpr
+
+    d0, d1, s0 = AffineExpr.dimension(0), AffineExpr.dimension(1), AffineExpr.symbol(0)
+    exprs = [d0, d1 + 3, d0 * 2, d0 - d1, d0 // 4, d0 % 8, d0.ceil_div(2), d0 + s0, (d0 + d1) * 2, d0 * -1, -d0, s0 * 3 + d1,
+             AffineExpr.constant(-5), (d0 % 4) // 2, d0 - 1]
+    for k, e in enumerate(exprs):
+        add(f"affine_map #{k}", lambda e=e: b.AffineMapAttr(AffineMap(2, 1, (e,))))
+    add("affine_map two results", lambda: b.AffineMapAttr(AffineMap(2, 1, (d0 + s0, d1 % 2))))
+    add("affine_map no dims", lambda: b.AffineMapAttr(AffineMap(0, 0, (AffineExpr.constant(7),))))
+    add("affine_map empty", lambda: b.AffineMapAttr(AffineMap(1, 0, ())))
+    add("memref with map", lambda: b.MemRefType(b.f32, [4, 4], b.AffineMapAttr(AffineMap(2, 0, (d1, d0)))))
+    dyn = getattr(b, "DYNAMIC_INDEX", -1)
+    add("strided dynamic", lambda: b.MemRefType(b.f32, [dyn, 3], b.StridedLayoutAttr([dyn, 1], dyn)))
+    add("strided no offset", lambda: b.MemRefType(b.i8, [2], b.StridedLayoutAttr([1])))
+    add("vector 0-d", lambda: b.VectorType(b.f32, []))
+    add("unsigned index-like", lambda: b.IntegerAttr(2 ** 64 - 1, b.IntegerType(64, b.Signedness.UNSIGNED)))
     add("dense vector", lambda: b.DenseIntOrFPElementsAttr.from_list(b.VectorType(b.f32, [2]), [1.5, -2.5]))
     add("dense empty", lambda: b.DenseIntOrFPElementsAttr.from_list(b.TensorType(b.f32, [0]), []))
     def roundtrips(x) -> bool:    # generation filter only: containers are built from values that round-trip on their own
